@@ -722,15 +722,22 @@ pub fn check_match(r: &mut Recorder, c: &Value) {
             // a LanguageIdentifier matched against a Locale's id directly (AsRef)
             let m_mixed = la.id.matches(&lb, *ra, *rb);
             let m_lang = la.id.language.matches(lb.id.language, *ra, *rb);
-            (m_loc, m_li, m_mixed, m_lang)
+            // the very same object on both sides must fare like an equal value at another address (no identity short cut
+            // in front of the private-use rule); a clone of it likewise
+            let twin = la.clone();
+            let self_ok = la.matches(&la, *ra, *rb) == la.matches(&twin, *ra, *rb) && la.id.matches(&la.id, *ra, *rb) == la.id.matches(&twin.id, *ra, *rb);
+            (m_loc, m_li, m_mixed, m_lang, self_ok)
         });
         match got {
             Err(at) => {
                 r.dis(&["C01"], &format!("panic@{}", short_at(&at)), json!({"a": show(&a), "b": show(&bb), "panic": at}));
                 return;
             }
-            Ok((m_loc, m_li, m_mixed, m_lang)) => {
+            Ok((m_loc, m_li, m_mixed, m_lang, self_ok)) => {
                 r.stat("match_eval");
+                if !self_ok {
+                    r.dis(&["C11"], "matches-depends-on-operand-identity", json!({"a": show(&a), "self_as_range": ra, "other_as_range": rb}));
+                }
                 if Some(m_loc) != exp_loc {
                     r.dis(&["C11"], "locale-matches", json!({"a": show(&a), "b": show(&bb), "self_as_range": ra, "other_as_range": rb, "expected": exp_loc, "observed": m_loc}));
                 }
@@ -1107,6 +1114,26 @@ pub fn dispatch(r: &mut Recorder, c: &Value) {
                 }
                 None => join(&toks),
             };
+            // "after" (optional): a well-formed text to be parsed through every door FIRST, so that whatever the library
+            // remembers of it (a memo keyed by a folded or padded form of the input) is there when the case itself is parsed
+            if let Some(a) = c.get("after") {
+                let a = unbytes(a);
+                if !a.is_empty() {
+                    let _ = guard(|| {
+                        let _ = LanguageIdentifier::from_bytes(&a);
+                        let _ = Locale::from_bytes(&a);
+                        let _ = unic_langid_impl::canonicalize(&a);
+                        let _ = unic_locale_impl::canonicalize(&a);
+                        if let Some(p) = a.iter().position(|x| *x == b'-' || *x == b'_') { let _ = LanguageIdentifier::from_bytes(&a[..p]); let _ = Language::from_bytes(&a[..p]); }
+                        #[cfg(feature = "serde")]
+                        if let Ok(t) = std::str::from_utf8(&a) {
+                            let _ = serde_json::from_str::<LanguageIdentifier>(&format!("\"{}\"", t));
+                            let _ = serde_json::from_str::<LanguageIdentifier>(&format!("\"{}\"", t.split(|ch| ch == '-' || ch == '_').take(2).collect::<Vec<_>>().join("-")));
+                        }
+                    });
+                    r.stat("parse_after_a_wellformed_twin");
+                }
+            }
             if let Some(li) = c.get("li") {
                 check_li(r, &input, li);
             }
